@@ -170,3 +170,16 @@ Print Assumptions C17_min_sentences_depth_unbounded_refuted.
 Theorem C17_min_sentences_depth_bound_tight : min_sentences_depth_bound_tight_stmt.
 Proof. exact min_sentences_depth_bound_tight. Qed.
 Print Assumptions C17_min_sentences_depth_bound_tight.
+
+(* min_sentences on a clique of mutually recursive unit productions (C17/QueryClique.v): the `active` flags exclude only the
+   rules of the current path and nothing is memoised or de-duplicated, so every simple path of the rule graph is walked and the
+   one minimal sentence is returned once per path (known finding C17-min_sentences-factorial-paths; witnesses on the mirror). *)
+From GV Require Import C17.QueryClique.
+
+Theorem C17_min_sentences_clique_copies : min_sentences_clique_copies_stmt.
+Proof. exact min_sentences_clique_copies. Qed.
+Print Assumptions C17_min_sentences_clique_copies.
+
+Theorem C17_min_sentences_answer_not_duplicate_free_refuted : min_sentences_answer_not_duplicate_free_refuted_stmt.
+Proof. exact min_sentences_answer_not_duplicate_free_refuted. Qed.
+Print Assumptions C17_min_sentences_answer_not_duplicate_free_refuted.
